@@ -49,6 +49,9 @@ class Arena:
         self.custom_interrupt = {}
         self.helper = None
         self.struck = []
+        self.pending_exits = []
+        #: participants whose clean-up takes virtual time (scenarios declare them)
+        self.slow_leavers = set()
 
     def log(self, *event):
         sess = self.sess
@@ -119,8 +122,33 @@ class Arena:
             sess.stats['strike_too_late'] += 1
             return False
         self.struck.append((sess.n, kind, name, sess.now()))
+        if not (kind == 'interrupt' and self.custom_interrupt.get(name) is not None):
+            # (an interrupt of the participant's own kind - `process.interrupt()` - is an
+            # exception that the participant may handle and survive)
+            self.pending_exits.append((kind, name, task, sess.now()))
         sess.stats['struck:' + kind] += 1
         return True
+
+    def step_end(self, sess, loop, prev_time):
+        """Whoever was struck in the time step that is over must be gone: a cancellation is raised
+        at the victim's suspension point in the same time step (C06), the body of an until block is
+        abandoned within the time step of its notification (C07), a closed task is done when the
+        block that closed it is left (C04) - whatever the victim was suspended in, and whatever
+        else happened to that primitive in the same time step."""
+        if not self.pending_exits or loop is not sess.main_loop:
+            return
+        remaining = []
+        for kind, name, task, when in self.pending_exits:
+            if when != prev_time:
+                remaining.append((kind, name, task, when))
+                continue
+            sess.stats['struck_exits_checked'] += 1
+            if not task.done and name not in self.slow_leavers:
+                sess.violation(
+                    'arena-struck-but-goes-on:' + kind,
+                    '%s was struck (%s) at time %r and is still not done when that time step is '
+                    'over' % (name, kind, when))
+        self.pending_exits = remaining
 
     @staticmethod
     async def _set(flag):
@@ -155,6 +183,7 @@ def run_arena(build, plan=None, budget=200000):
     """build(arena) -> (participants, background, checker); returns (sess, arena, checker, outcome)"""
     sess = Session(budget_per_step=20000, budget_total=budget)
     arena = Arena(sess)
+    sess.step_end_hooks.append(arena.step_end)
     participants, background, checker = build(arena)
     if plan:
         for n, kind, name in plan:
@@ -178,7 +207,7 @@ def explore(case, build, rng, check, tier, quick_samples=10, max_plans=None, bud
     sigs = []
     stats = {'activations': 0, 'landing_sites': {}, 'struck:cancel': 0, 'struck:interrupt': 0,
              'struck:close': 0, 'signals_landed': 0, 'strike_victim_done': 0,
-             'strike_no_victim': 0, 'strike_too_late': 0}
+             'strike_no_victim': 0, 'strike_too_late': 0, 'struck_exits_checked': 0}
     evals = 0
     if case.get('plan') is not None:
         plans = [[tuple(item) for item in case['plan']]]
@@ -192,7 +221,8 @@ def explore(case, build, rng, check, tier, quick_samples=10, max_plans=None, bud
         evals += 1
         stats['activations'] += sess.n
         for key in ('struck:cancel', 'struck:interrupt', 'struck:close', 'signals_landed',
-                    'strike_victim_done', 'strike_no_victim', 'strike_too_late'):
+                    'strike_victim_done', 'strike_no_victim', 'strike_too_late',
+                    'struck_exits_checked'):
             stats[key] += sess.stats.get(key, 0)
         for site, count in sess.landing.items():
             stats['landing_sites'][site] = stats['landing_sites'].get(site, 0) + count
@@ -222,7 +252,8 @@ def explore(case, build, rng, check, tier, quick_samples=10, max_plans=None, bud
 
 def kernel_violations(sess, outcome, extra_ok=()):
     """what every arena execution must satisfy: kernel monitors silent, run() ends normally"""
-    found = [dict(v) for v in sess.violations if v['mechanism'].startswith('kernel-')]
+    found = [dict(v) for v in sess.violations
+             if v['mechanism'].startswith(('kernel-', 'arena-'))]
     kind, exc = outcome
     if kind == 'exc':
         def leaf_types(err):
